@@ -290,6 +290,30 @@ def main(tier):
             rep.violation("cli-vs-api:%s" % diff[0], "configured through setParameters(argc, argv) the solver differs from the same options set through the "
                           "setters in %s (e.g. %s: %s vs %s)  [gmgpolar %s]" % (diff, diff[0], y.get(diff[0]), x.get(diff[0]), " ".join(cli_args(cfgs[i]))),
                           {"config": cfgs[i], "entry": "cli-vs-api", "argv0": twin_prior.get(i)})
+    # 6. a grid written by one solver (write_grid_file, 18 digits) and loaded by another (load_grid_file) is the same grid: the solve on
+    #    the loaded grid equals the solve on the generated grid bit for bit
+    rt_ids = [i for i in ok_ids if cfgs[i].get("gridfile", 0) == 2]
+    gen_lines = []
+    for i in rt_ids:
+        g = dict(cfgs[i])
+        g["gridfile"] = 0
+        gen_lines.append(("g%05d" % i, gl.line_of("g%05d" % i, g)))
+    rl = gl.run_cases(b["rel"], [("o%05d" % i, gl.line_of("o%05d" % i, cfgs[i])) for i in rt_ids])
+    rg = gl.run_cases(b["rel"], gen_lines)
+    counts["grid_file_roundtrip_pairs"] = len(rt_ids)
+    for i in rt_ids:
+        x, y = rg.get("g%05d" % i, {}), rl.get("o%05d" % i, {})
+        if x.get("status") != "ok" or y.get("status") != "ok":
+            if x.get("status") == "ok":
+                rep.violation("grid-file-roundtrip:rejected", "a grid written by write_grid_file is %s by load_grid_file: %s  [options %s]" %
+                              (y.get("status"), y.get("what") or gl.crash_line(y.get("stderr")), json.dumps(c01.short(cfgs[i]))),
+                              {"config": cfgs[i], "entry": "api"})
+            continue
+        diff = [k for k in ("nr", "nt", "levels", "its", "rho", "e2", "einf", "sol") if x.get(k) != y.get(k)]
+        if diff:
+            rep.violation("grid-file-roundtrip:%s" % diff[0], "solving on the grid a solver wrote to files and another loaded differs from solving on the "
+                          "generated grid in %s (e.g. %s: %s vs %s)  [options %s]" % (diff, diff[0], y.get(diff[0]), x.get(diff[0]),
+                                                                                       json.dumps(c01.short(cfgs[i]))), {"config": cfgs[i], "entry": "api"})
     # 4. valgrind slice: no use of uninitialised values in the shipped configuration
     vg = [i for i in ok_ids if cfgs[i]["nr_exp"] <= 3 or cfgs[i].get("maxit", 150) <= 3][:(40 if tier == "thorough" else 12)]
     tmp = tempfile.mkdtemp(prefix="c20", dir=common.BUILD)
